@@ -15,6 +15,7 @@ CONFIG = {
         "env": {"quick": {"VERIF_C31_N": 12000, "VERIF_C31_REC": 100},
                 "thorough": {"VERIF_C31_N": 300000, "VERIF_C31_REC": 60}},
         "timeout": {"quick": 900, "thorough": 3000},
+        "search_tier": "quick",
     }],
     "level_note": "PARTIAL for 'without an internal crash': Go-level panics inside op functions are outside the model; that half "
                   "is decided only by the fuzz search (panicError must never be observed)",
